@@ -14,6 +14,7 @@
 From Coq Require Import List String Bool Ascii.
 From KV Require Import LockDiscipline LockDisciplineProofs.
 From KV.gen Require Import Locks.
+From KV.gen Require LockLeaks.
 Import ListNotations.
 Open Scope string_scope.
 
@@ -77,3 +78,14 @@ Proof.
   intros tr W C. apply (table_no_race repl_accesses); auto.
   apply protectedb_sound. exact repl_fields_protected.
 Qed.
+
+(* explicit Lock()/Unlock() pairs in pkg/replication (gen/LockLeaks.v, gofacts/lockleaks.go): no
+   way out of a function or loop iteration with a mutex still locked (the next taker - a client
+   write that broadcasts, the heartbeat monitor - waits for ever), and no Unlock reached on a path
+   that has released the mutex already (the Go runtime aborts the whole primary with "unlock of
+   unlocked mutex": a replica failing the primary). *)
+Definition repl_lock_exits : list (string * string * string * string) :=
+  filter (fun r => match r with (p, _, _, _) => String.eqb p "pkg/replication" end) LockLeaks.lock_leaks.
+
+Lemma repl_locks_released_exactly_once : repl_lock_exits = [].
+Proof. vm_compute. reflexivity. Qed.
